@@ -29,4 +29,9 @@ REGISTRY = {
     "C13": _e("harness", "eng_flow", "exploration"),
     "C15": _e("harness", "eng_flow", "exploration"),
     "C41": _e("harness", "eng_flow", "exploration"),
+    "C31": _e("harness", "eng_cfg", "exploration"),
+    "C32": _e("harness", "eng_cfg", "model_checking"),
+    "C05": _e("harness", "eng_fmt", "exploration"),
+    "C06": _e("harness", "eng_fmt", "exploration"),
+    "C07": _e("harness", "eng_fmt", "exploration"),
 }
